@@ -38,6 +38,9 @@ add('C15', 'recorders on wma_age_factor / wma_world_best; envelope oracle from t
 add('C12', 'recorder on the real check_performance_for_discipline with a custom error class; format/plausibility oracle per event kind, idempotence by a second real call',
     'Customary codes, loose names and codes sampled from every family pattern x an entry-text grammar (hand-written boundary entries plus seeded 1-3 field texts) x gender x precision option; every observed call judged for exception class, result format, speed / record plausibility and idempotence.',
     'Sanity limits are the documented ones (11 / 10 / 0.5 m/s, 120 % of record); refusing with the supplied class is always allowed.', 'C12')
+add('C19', 'fresh-process outcome table as oracle; recorders on schema_valid / valid_against_schema compare every call of generated call sequences; audit hook for network access',
+    'Every distinct call of the alphabet is first executed alone in a fresh interpreter; then all sequences of length <= 3 over each cache key, cross-key pairs and seeded long sequences overflowing the 20-entry caches are run in-process with every outcome compared with the table; a sample of sequences is re-run in fresh interpreters to validate the in-process reset.',
+    'State reset between sequences = clearing the two module caches; exhaustive only over the per-key alphabets at length <= 3.', 'C19')
 _all = ['C%02d' % i for i in range(1, 20)]
 for p in _all:
     if p not in CHECKS:
